@@ -26,6 +26,8 @@ pub enum IKind {
     Data(u16),
     Error(u16),
     Oack,
+    /// a DATA datagram with a payload of this many bytes (larger than the listener's default buffer)
+    BigData(u16),
 }
 
 #[derive(Clone, Debug, Serialize, Deserialize)]
@@ -38,6 +40,8 @@ pub enum Act {
     IntrudeTransfer(u8, IKind),
     /// client i, once finished, sends a stray packet to the listening port from its old endpoint
     StrayFromFinished(u8, IKind),
+    /// client i, once finished, starts another transfer (a fresh download of its neighbour's kind) from the same endpoint
+    Restart(u8),
 }
 
 #[derive(Clone, Debug, Serialize, Deserialize)]
@@ -64,6 +68,7 @@ struct Cl {
     sources: Vec<SocketAddr>,
     started_at: usize,
     finished_at: usize,
+    restarts: usize,
 }
 
 fn ikind_bytes(k: &IKind) -> Vec<u8> {
@@ -72,6 +77,7 @@ fn ikind_bytes(k: &IKind) -> Vec<u8> {
         IKind::Data(n) => refcodec::data(*n, b"intruder-data"),
         IKind::Error(c) => refcodec::error(*c % 8, "intruder"),
         IKind::Oack => vec![0, 6, b'b', b'l', b'k', b's', b'i', b'z', b'e', 0, b'8', 0],
+        IKind::BigData(n) => refcodec::data(7, &vec![0x49u8; 513 + (*n as usize % 900)]),
     }
 }
 
@@ -217,6 +223,7 @@ fn run_case(dir: &Path, c: &Case) -> Result<Vec<&'static str>, (String, String)>
             sources: vec![],
             started_at: 0,
             finished_at: usize::MAX,
+            restarts: 0,
         });
     }
     let mut args = vec![wire::s("-sd"), send.to_string_lossy().to_string(), wire::s("-rd"), recv.to_string_lossy().to_string()];
@@ -306,6 +313,40 @@ fn run_case(dir: &Path, c: &Case) -> Result<Vec<&'static str>, (String, String)>
                         }
                         classes.push("intruder-to-transfer-endpoint");
                     }
+                }
+            }
+            Act::Restart(i) => {
+                let idx = i as usize % k;
+                if cls[idx].done && cls[idx].restarts < 2 {
+                    // same socket, same source port: a second transfer of the same kind with fresh content
+                    let n = cls[idx].restarts + 1;
+                    let data = content(c.seed ^ (idx as u64 * 131 + n as u64 * 7), cls[idx].spec.len + 300 * n);
+                    let name = format!("{}r{}.bin", if cls[idx].spec.write { "u" } else { "d" }, idx * 10 + n);
+                    if !cls[idx].spec.write {
+                        std::fs::write(send.join(&name), &data).unwrap();
+                    } else {
+                        // the previous upload of this endpoint is verified now, before the state is reused
+                        let stored = std::fs::read(recv.join(&cls[idx].name)).unwrap_or_default();
+                        if stored != cls[idx].data {
+                            return Err(("upload-content".into(), format!("client {} uploaded {} bytes, stored {}", idx, cls[idx].data.len(), stored.len())));
+                        }
+                    }
+                    let _ = cls[idx].sock.drain(Duration::from_millis(1));
+                    let c0 = &mut cls[idx];
+                    if !c0.spec.write && c0.got != c0.data {
+                        return Err(("download-content".into(), format!("client {} received {} bytes that differ from its file", idx, c0.got.len())));
+                    }
+                    c0.name = name;
+                    c0.data = data;
+                    c0.started = false;
+                    c0.done = false;
+                    c0.next = 1;
+                    c0.got.clear();
+                    c0.sources.clear();
+                    c0.peer = None;
+                    c0.finished_at = usize::MAX;
+                    c0.restarts = n;
+                    classes.push("second-transfer-from-same-endpoint");
                 }
             }
             Act::StrayFromFinished(i, kind) => {
@@ -403,7 +444,7 @@ pub fn judge(dir: &Path, c: &Case, obs: &mut Obs) -> Judge {
 }
 
 fn ikind() -> BoxedStrategy<IKind> {
-    prop_oneof![any::<u16>().prop_map(IKind::Ack), (0u16..4).prop_map(IKind::Ack), (0u16..4).prop_map(IKind::Data), (0u16..8).prop_map(IKind::Error), Just(IKind::Oack)].boxed()
+    prop_oneof![any::<u16>().prop_map(IKind::BigData), any::<u16>().prop_map(IKind::Ack), (0u16..4).prop_map(IKind::Ack), (0u16..4).prop_map(IKind::Data), (0u16..8).prop_map(IKind::Error), Just(IKind::Oack)].boxed()
 }
 
 fn spec() -> BoxedStrategy<Spec> {
@@ -424,6 +465,7 @@ pub fn strategy() -> BoxedStrategy<Case> {
                 2 => ikind().prop_map(Act::IntrudeListen),
                 2 => ((0u8..k as u8), ikind()).prop_map(|(i, kd)| Act::IntrudeTransfer(i, kd)),
                 2 => ((0u8..k as u8), ikind()).prop_map(|(i, kd)| Act::StrayFromFinished(i, kd)),
+                2 => (0u8..k as u8).prop_map(Act::Restart),
             ];
             (Just(single), proptest::collection::vec(spec(), k), proptest::collection::vec(act, 0..(6 * k)), Just(seed))
         })
